@@ -588,7 +588,10 @@ def g_rename(rng):
         # destination overlapping the image
         tgt = list(sm.values())
         D.rules.append((0, (), rng.choice(tgt)))
-    return f"rename {A.tok()} {map_tok(sm)} {map_tok(ym)} {D.tok()}"
+    # the state on which the throwing functor throws: mostly a state of A, sometimes a number that does not occur
+    st = A.states()
+    miss = rng.choice(st) if (st and rng.random() < 0.8) else 77
+    return f"rename {A.tok()} {map_tok(sm)} {map_tok(ym)} {D.tok()} {miss}"
 
 
 
